@@ -124,3 +124,19 @@ theorem C13_ctx_end (o : Opts) (cpRaw : Bytes) (submit : Cp.Checkpoint) :
     submitLoop o cpRaw submit [] = ([], none) := rfl
 
 end C13
+
+namespace C13
+open Feeder
+
+/-- an attempt in which the witness answers with bytes that do not open as this log's checkpoint (or with an error)
+    asks nothing further of anybody: no proof is fetched, nothing is submitted, and the attempt is retried -/
+theorem C13_unusable_latest_no_submission (o : Opts) (cpRaw : Bytes) (submit : Cp.Checkpoint) (a : Attempt)
+    (h : a.get = .err ∨ ∃ raw, a.get = .ok raw ∧ raw ≠ [] ∧ Cp.parseCheckpoint raw o.origin o.verifier [] = none) :
+    submitOp o cpRaw submit a = ([.get], .transient) := by
+  unfold submitOp
+  rcases h with h | ⟨raw, hg, hne, hp⟩
+  · simp [h]
+  · have hemp : raw.isEmpty = false := by cases raw <;> simp_all
+    simp [hg, hemp, hp]
+
+end C13
